@@ -582,7 +582,9 @@ class UnionMetaType(StructureMetaType):
                 anonymous_struct = field
                 continue
 
-            # Write the value
+            # Write the value, at the offset the member has in the union
+            if field.offset:
+                stream.write(b"\x00" * field.offset)
             field.type._write(stream, getattr(data, field._name))
             break
 
